@@ -42,7 +42,7 @@ Section Load.
     match verify_event_auth_chain PS allowed pcall fuel gfuel e ps with
     | (ChainOutOfFuel, ps1) => (None, ps1)
     | (ChainOk, ps1) =>
-        match verify_auth_rules_at_state PS allowed pcall sp_ids sp_state e true ps1 with
+        match verify_auth_rules_at_state PS allowed sp_ids sp_state e true ps1 with
         | (RasOk, ps2) => (Some LOk, ps2)
         | (_, ps2) => (Some LAuthRules, ps2)
         end
@@ -84,49 +84,50 @@ Section Load.
   Variable servers_at : PS -> N -> PS * list N.                 (* ServersAtEvent(roomID, fromEventIDs[0]) *)
   Variable backfill : PS -> N -> PS * option (list parsed).     (* Backfill(server, ...) -> txn.PDUs *)
 
-  (* the loop over loadResults: results without error and with SignatureErr are taken,
-     once per event ID *)
-  Fixpoint take_results (rs : list (option event * lclass)) (have : list N) (result : list event)
-    : list N * list event :=
+  (* the loop over loadResults: results without error and with SignatureErr are taken, once per
+     event ID; fix F85: only events of the room that is being backfilled *)
+  Fixpoint take_results (room : N) (rs : list (option event * lclass)) (have : list N)
+           (result : list event) : list N * list event :=
     match rs with
     | [] => (have, result)
     | (Some e, LOk) :: r | (Some e, LSig) :: r =>
-        if mem_N (eid e) have then take_results r have result
-        else take_results r (eid e :: have) (result ++ [e])
-    | _ :: r => take_results r have result
+        if negb (eroom e =? room) then take_results room r have result
+        else if mem_N (eid e) have then take_results room r have result
+        else take_results room r (eid e :: have) (result ++ [e])
+    | _ :: r => take_results room r have result
     end.
 
   Inductive bf_result :=
   | BfResult (events : list event) (lastErr : bool)
   | BfOutOfFuel.
 
-  Fixpoint bf_loop (fuel gfuel : nat) (version_known : bool) (limit : Z) (servers : list N)
+  Fixpoint bf_loop (fuel gfuel : nat) (version_known : bool) (room : N) (limit : Z) (servers : list N)
            (have : list N) (result : list event) (lastErr : bool) (ps : PS) : bf_result * PS :=
     match servers with
     | [] => (BfResult result lastErr, ps)
     | s :: rest =>
         if (limit <=? Z.of_nat (length result))%Z then (BfResult result lastErr, ps) else
         match backfill ps s with
-        | (ps1, None) => bf_loop fuel gfuel version_known limit rest have result true ps1
+        | (ps1, None) => bf_loop fuel gfuel version_known room limit rest have result true ps1
         | (ps1, Some pdus) =>
             match load_and_verify fuel gfuel version_known pdus ps1 with
             | (LoadOutOfFuel, ps2) => (BfOutOfFuel, ps2)
-            | (LoadErr, ps2) => bf_loop fuel gfuel version_known limit rest have result true ps2
+            | (LoadErr, ps2) => bf_loop fuel gfuel version_known room limit rest have result true ps2
             | (LoadResults rs, ps2) =>
-                let '(have', result') := take_results rs have result in
-                bf_loop fuel gfuel version_known limit rest have' result' lastErr ps2
+                let '(have', result') := take_results room rs have result in
+                bf_loop fuel gfuel version_known room limit rest have' result' lastErr ps2
             end
         end
     end.
 
   (* the final ReverseTopologicalOrdering(result) is applied by the caller of this function
      (the executable instance compares the returned events as a set) *)
-  Definition request_backfill (fuel gfuel : nat) (version_known : bool) (from_ids : list N)
+  Definition request_backfill (fuel gfuel : nat) (version_known : bool) (room : N) (from_ids : list N)
              (limit : Z) (ps : PS) : bf_result * PS :=
     match from_ids with
     | [] => (BfResult [] false, ps)
     | first :: _ =>
         let '(ps1, servers) := servers_at ps first in
-        bf_loop fuel gfuel version_known limit servers [] [] false ps1
+        bf_loop fuel gfuel version_known room limit servers [] [] false ps1
     end.
 End Load.
